@@ -104,6 +104,20 @@ def c11dbgup (a : List String) (obs : String) : String × String :=
     (model, verdict)
   | _ => ("BADOP", "skip")
 
+/-- a rejection seen through Dialer.OnStatusError under every chunking x buffer size: judged, not predicted -/
+def c11chdls (_a : List String) (obs : String) : String × String :=
+  if obs.startsWith "SKIP" then (obs, "skip") else
+  (obs, if getF obs "distinct" == "1" then "ok" else "bad:what-OnStatusError-sees-depends-on-chunking-or-buffer-size")
+
+/-- DebugUpgrader over a connection that breaks while the response goes out: judged, not predicted (the model has
+    no failing connection) — what OnResponse reports is what the connection accepted. -/
+def c11dbgupw (_a : List String) (obs : String) : String × String :=
+  (obs,
+    if obs.startsWith "PANIC" then "bad:debug-upgrader-panics"
+    else if getF obs "calls" != "1" then "bad:debug-upgrader-callback-count"
+    else if getF obs "represp" != getF obs "written" then "bad:debug-upgrader-reports-response-bytes-that-were-not-sent"
+    else "ok")
+
 def c11dbgdl (a : List String) (obs : String) : String × String :=
   match a with
   | [dc, _url, respS, k, mode] =>
